@@ -289,14 +289,22 @@ def run_item(ctx, item):
         check_iteration(ctx, sc, "Score")
     elif kind == "perf":
         from workloads import gen_perf
-        spec = gen_perf.make_perf_spec(rng, kind="performance")
-        perf = gen_perf.build_performance(spec)
-        import partitura.utils.music as M
+        # the exporter takes a Performance, a bare PerformedPart or a list of parts; track numbers may have gaps or clash
+        hostile = rng.choice([None, None, "gaps", "shared", "shuffle"])
+        spec = gen_perf.make_perf_spec(rng, kind=None if hostile else rng.choice(["performance", "part", "list"]), hostile=hostile)
+        arg = gen_perf.build_performance(spec)
+        from partitura.performance import Performance, PerformedPart
+        perf = arg if isinstance(arg, Performance) else None
+        first = arg if isinstance(arg, PerformedPart) else arg[0]
 
         def smf():
-            mf = partitura.save_performance_midi(perf, out=None)
+            mf = partitura.save_performance_midi(arg, out=None)
             return [[(m.type, m.time, getattr(m, "note", None)) for m in tr] for tr in mf.tracks]
-        entries = [("save_performance_midi", smf), ("Performance.note_array", lambda: perf.note_array())]
+        entries = [("save_performance_midi", smf), ("PerformedPart.note_array", lambda: first.note_array())]
+        if perf is not None:
+            entries.append(("Performance.note_array", lambda: perf.note_array()))
+        import partitura.utils.music as M
+        perf = perf if perf is not None else Performance([first] if isinstance(arg, PerformedPart) else list(arg), ensure_unique_tracks=False)
         if len(perf) and len(perf[0].notes):
             def ppr():
                 try:
@@ -304,8 +312,8 @@ def run_item(ctx, item):
                 except ValueError:
                     return None          # only drum-channel notes: documented "Note array is empty"
             entries.append(("perf-pianoroll", ppr))
-        nobj = n_objects(perf)
-        run_pair_checks(ctx, entries, rng, "performance", core.digest(spec), nobj)
+        nobj = n_objects(arg)
+        run_pair_checks(ctx, entries, rng, type(arg).__name__, core.digest(spec), nobj)
         check_iteration(ctx, perf, "Performance")
     else:
         n = rng.randint(0, 4)
